@@ -17,6 +17,7 @@ class LowerError(Exception):
 
 
 def _fn_body(text, name):
+    text = re.sub(r"/\*.*?\*/", lambda mm: " " * len(mm.group(0)), text, flags=re.S)  # block comments hold an old copy
     m = re.search(r"fn\s+%s\s*\(" % re.escape(name), text)
     if not m:
         raise LowerError("function %s not found" % name)
@@ -361,3 +362,21 @@ def lower_normalize(lz_encoder_text, variant):
     lines += ["    " + s for s in stmts]
     lines += ["    %s" % stored, "}"]
     return "\n".join(lines), {"variant": variant, "statements": len(stmts)}
+
+
+def lower_dispatch(range_dec_text, arch):
+    """The condition under which decode_direct_bits hands over to the asm variant, as a Rust predicate over
+    (pos, len, count).  Only the vocabulary below is understood; anything else is a LowerError."""
+    body = _fn_body(range_dec_text, "decode_direct_bits")
+    m = re.search(r"if\s+([^{}]*?)\{\s*return\s+self\.decode_direct_bits_%s\(count\);" % arch, body, re.S)
+    if not m:
+        raise LowerError("dispatch to decode_direct_bits_%s not found" % arch)
+    cond = " ".join(m.group(1).split())
+    expr = cond
+    for a, b in (("self.inner.is_buffer()", "true"), ("self.inner.pos()", "pos"), ("self.inner.buf().len()", "len")):
+        expr = expr.replace(a, b)
+    left = re.sub(r"\b(true|pos|len|count|as|usize|u32)\b|[0-9]+|&&|\|\||<=|>=|<|>|==|\+|-|\(|\)|\s", "", expr)
+    if left:
+        raise LowerError("dispatch condition uses unknown vocabulary: %r in %r" % (left, cond))
+    txt = "/// generated from the dispatch condition `%s`\npub(crate) fn model_dispatch_%s(pos: usize, len: usize, count: u32) -> bool {\n    %s\n}" % (cond, arch, expr)
+    return txt, {"arch": arch, "dispatch": cond}
